@@ -2,6 +2,8 @@ package core
 
 import (
 	"encoding/json"
+
+	"github.com/openconfig/goyang/pkg/zzsim"
 )
 
 // Evidence mirrors /root/.vp/EVIDENCE.schema.json (level "exploration").
@@ -79,6 +81,8 @@ func buildEvidence(d Driver, o CheckOpts, info Info, total workerSummary, distin
 	if len(trouble) > 0 {
 		cov["machinery_trouble"] = trouble
 	}
+	// nondeterminism sources of the tree under test that no seam covers
+	cov["seam_warnings"] = append([]string{}, zzsim.Warnings...)
 	return Evidence{
 		PropertyID:  d.ID(),
 		Tier:        o.Tier,
